@@ -18,14 +18,20 @@ from .. import coqenc as q
 ID = 'C02'
 RULE = ('derivation histories on an n x c recording with entry (r, j) = ((r*c + j) + off) * mul in the sample '
         'dtype: (i) fans -- for every first operator o1 in {none} u (2 unary + 12 binary x 7 scalars + 3 column '
-        'selectors = 89) one history deriving o1(reader) and then EVERY second operator o2 from it (all programs '
-        'of depth <= 2, 8 010 per dtype), each child read with a row index (int / negative int / slice across a '
-        'file boundary / list / ndarray) with and without a trailing column selector, parent and root re-read at '
+        'selectors + 4 further ARGUMENT FORMS of a column selector -- boolean mask as ndarray / as list of bools, ids as '
+        'tuple / as uint8 ndarray -- = 93) one history deriving o1(reader) and then EVERY second operator o2 from it (all programs '
+        'of depth <= 2, 8 742 per dtype), each child read with a row index (int / negative int / slice across a '
+        'file boundary / list / ndarray) with and without a trailing column selector (slice / id list, and every seventh read one of 8 further forms: masks in '
+        'the three containers, ids as tuple / uint8 / int8 ndarray, a range, the ellipsis), parent and root re-read at '
         'the end (2 of the ~12 rotating row indices are EMPTY selections, so about every sixth program is read with one); exhaustive on int16 and float64 in quick, on every dtype in thorough, sampled on the other '
         'dtypes / backends (flat multi-file, in-memory array, .npy, mtscomp .cbin) in quick; depth-3 fans sampled '
         'in thorough; (ii) seeded random programs of depth 1-4 with random row index, column selector, dtype, '
         'backend, layout; (iia) sweeps -- 8 (quick) / 48 (thorough) programs each followed by EVERY row index of the regime on 4 / 5 rows (all integers, all unit-step slices selecting >= 1 row, all non-empty increasing lists, as list or ndarray, and ALL empty slices of the reading in all four sign forms; every seventh read through the one-element tuple reader[(rows,)]); (iii) derivation trees of <= 7 readers (parents, siblings, grandchildren) where every '
-        'existing reader is re-read after every derivation, plus hand-written aliasing corner cases. Programs '
+        'existing reader is re-read after every derivation, plus hand-written aliasing corner cases; (iv) channel-selector forms: every permutation / index list of <= 3 of 4 '
+        'channels as list, EVERY boolean mask over 4 channels in every container (ndarray of bool, list, tuple of bools), '
+        'a third of the index lists in the other id containers (tuple, ndarrays of int8 ... uint64, intp), each as a '
+        'whole-recording selection followed by arithmetic and as the selector of a read; random programs draw any mask '
+        '(any length), id list in any container, range or ellipsis for about every 25th operator. Programs '
         'whose eager NumPy evaluation raises are dropped from the history (counted); reads on which NumPy itself '
         'is not row-count independent (pure-NumPy evaluation on the block != on the whole array, e.g. SIMD vs '
         'scalar pow) are dropped (counted). Non-trivial = at least one read of a derived reader; distinct = '
@@ -54,7 +60,10 @@ ASSUMES = ['row indices as in C01 (integers in [-n, n); unit-step slices with bo
            'NumPy-normalised bounds satisfy 0 < e <= s < n with rows s and e - 1 in the same file (PV.C02.Spec.empty_item); '
            'stop = 0 (read as None by phylib), start = n, stop = -n, an empty slice touching a file boundary and empty '
            'index lists are outside: there the BASE reader raises (np.vstack of no block) and so does every derived reader',
-           'column selectors are slices or index lists (an integer column would change the rank)',
+           'column selectors are slices, index lists in any container NumPy accepts (list, tuple, range, ndarray of any '
+           'integer dtype), 1-D boolean masks (ndarray / list / tuple of bools) or the ellipsis; the model sees the slice / '
+           'the id list they denote in NumPy (mask = positions of its set bits) (an integer column, None or a 2-D index '
+           'would change the rank)',
            'programs whose eager evaluation raises in NumPy (integer ** negative integer, Python integer out of '
            'range for the dtype, column index out of range) are outside the statement',
            'scalars are Python ints and floats']
